@@ -49,6 +49,10 @@ CHECKS["C14"] = dict(level="fault_enumeration",
    text="For Hypothesis-generated tables (local and fake S3) every file reachable from the current snapshot is damaged in every way of a damage grammar (delete, truncations at structural and generated offsets, random bytes, sibling's bytes, one flipped byte per parquet region, persistent read error) and every read API x verify on/off x filter (none / pruning / non-pruning) is run: if the damaged file is needed by the read and the damage makes it missing/unparseable (judged by an independent parser) or (data files, verification on) changes any byte, the API must raise; otherwise a returned answer must equal the undamaged answer. Exhaustive over files x damages x APIs per generated table.",
    note="Metadata-plane damages that an independent parser still accepts are excluded (the statement does not cover parseable files). One known finding: deleting the metadata file the pointer names makes reads fall back to an older version (recovery-by-scan by design; conflicts with C10).",
    technique="exhaustive damage enumeration over generated tables (fault injection on files and on read calls), oracle = undamaged answer + independent parser", design="3/C14")
+CHECKS["C07"] = dict(level="fault_enumeration",
+   text="On tables built so that any wrong decision deletes something (rewritten manifest, live transaction with aged file, in-flight manifest with payload marker, legacy empty-payload marker, abandoned marker, aged orphans; 6 variants x local / fake S3): (a) a fault at EVERY step of a clean collection run (storage API and os-level calls; S3 requests failing persistently through the retry budget), (b) each listing returning an escaping path, (c) every reachable metadata-plane file corrupted in every way an independent parser rejects. After each run, raised or not, no file reachable in the undamaged table and no file protected by a live marker may be missing.",
+   note="True reachability/protection come from the independent reader on the undamaged table and from the harness's knowledge of the markers it planted. A run that raises after deleting only true orphans is allowed by the statement (protection stayed in force) and is counted, not flagged.",
+   technique="exhaustive fault injection over the recorded step sequence of GC + corruption enumeration, oracle = independent reachability", design="3/C07")
 NOT_YET = {}
 
 def main():
